@@ -1,0 +1,10 @@
+//go:build verif
+
+package engine
+
+import "github.com/KevoDB/kevo/pkg/engine/interfaces"
+
+// VerifCompactionManager returns the facade's compaction manager. Only compiled with -tags verif (verification tooling).
+func (e *EngineFacade) VerifCompactionManager() interfaces.CompactionManager {
+	return e.compaction
+}
